@@ -1,10 +1,12 @@
 import TxV.Model.Stack
-open TxV TxV.Proto TxV.Stack
+open TxV TxV.Proto TxV.Stack TxV.QueueUtil
 
 structure DState where
   ok : Bool
   depth : Nat
   st : State
+  ow : List Nat := []
+  or : List Nat := []
 
 /-- protocol:
     `cfg depth=5 w=8` → `ok`
@@ -16,7 +18,7 @@ def stepLine (s : DState) (line : String) : DState × String :=
   match t.head? with
   | some "cfg" =>
     match nat? t "depth" with
-    | some d => ({ ok := true, depth := d, st := init d }, "ok")
+    | some d => ({ ok := true, depth := d, st := init d, ow := natListOf t "pw", or := natListOf t "pr" }, "ok")
     | none => ({ s with ok := false }, "bad-op")
   | some "cyc" =>
     match s.ok, kv? t "w", nat? t "r", nat? t "p", nat? t "c" with
@@ -29,6 +31,14 @@ def stepLine (s : DState) (line : String) : DState × String :=
         ({ s with st := st' },
          s!"w={showBool o.wr.isSome} r={showOpt o.rd} p={showOpt o.pk} c={showBool o.clr} rdy={showBool o.rrdy}{showBool o.rrdy}{showBool o.wrdy} lvl={s.st.level} head={s.st.rd}")
     | _, _, _, _, _ => (s, "bad-op")
+  | some "mcyc" =>
+    match s.ok, MProto.parseMIn t true with
+    | true, some mi =>
+      let e := eff s.ow s.or mi
+      let (st', o) := step s.depth s.st ⟨e.w, e.r, e.p, e.c⟩
+      ({ s with st := st' },
+       s!"{MProto.showM mi e o.wr o.rd o.pk o.clr true} rdy={showBool o.rrdy}{showBool o.rrdy}{showBool o.wrdy} lvl={s.st.level} head={s.st.rd}")
+    | _, _ => (s, "bad-op")
   | _ => (s, "bad-op")
 
 def main : IO Unit := Proto.run ({ ok := false, depth := 1, st := init 1 } : DState) stepLine
